@@ -290,9 +290,18 @@ func (p *Prog) resolveRenames() {
 			if taken[f] || elsewhere(f) || f == bestF || (nil != bestF && foldedIn[bestF][f]) {
 				continue
 			}
-			if sc := score(ri.Marks, f); sc > second {
+			sc := score(ri.Marks, f)
+			if nil != bestF && foldedIn[f][bestF] {
+				/* A caller of the winner resembles the reference only as
+				far as its own text does. */
+				sc = jaccard(ri.Marks, marks[f])
+			}
+			if sc > second {
 				second = sc
 			}
+		}
+		if "" != os.Getenv("CRS_FLATDEBUG") && nil != bestF {
+			fmt.Fprintf(os.Stderr, "RENAME? %s best %s (%.2f, next %.2f)\n", name, bestF, best, second)
 		}
 		if nil != bestF && best >= 0.6 && best-second >= 0.15 {
 			p.renamed[name] = bestF
@@ -472,6 +481,52 @@ func refParam(fn *ssa.Function, name string) *ssa.Parameter {
 		if n == name && i+off < len(fn.Params) {
 			return fn.Params[i+off]
 		}
+	}
+	return nil
+}
+
+// renamedStruct: the struct type standing in for the reference's pkgPath.typ
+// which the tree no longer has under that name anywhere: the only named
+// struct type of the module which the reference does not know and which has
+// all of the reference type's fields, by name and type.
+func (p *Prog) renamedStruct(pkgPath, typ string) types.Object {
+	ref, ok := refFields[pkgPath+"."+typ]
+	if !ok || 0 == len(ref) {
+		return nil
+	}
+	q := func(p *types.Package) string { return p.Path() }
+	var found []types.Object
+	for _, pk := range p.Pkgs {
+		sc := pk.Types.Scope()
+		for _, n := range sc.Names() {
+			tn, ok := sc.Lookup(n).(*types.TypeName)
+			if !ok || tn.IsAlias() {
+				continue
+			}
+			if _, known := refFields[pk.PkgPath+"."+n]; known {
+				continue
+			}
+			st, ok := tn.Type().Underlying().(*types.Struct)
+			if !ok {
+				continue
+			}
+			have := map[string]bool{}
+			for i := 0; i < st.NumFields(); i++ {
+				have[st.Field(i).Name()+"\t"+types.TypeString(st.Field(i).Type(), q)] = true
+			}
+			all := true
+			for _, e := range ref {
+				if !have[e] {
+					all = false
+				}
+			}
+			if all {
+				found = append(found, tn)
+			}
+		}
+	}
+	if 1 == len(found) {
+		return found[0]
 	}
 	return nil
 }
